@@ -60,6 +60,39 @@ SPECS = {
         ],
         cross_check=False,
     ),
+    # resampling bookkeeping: the new grid covers exactly the old extent (gpts * sampling is conserved per axis), the new
+    # sampling is never coarser than the target and the point count is the smallest one achieving that
+    "adjusted_gpts": dict(
+        module="abtem/core/grid.py", qualname="adjusted_gpts",
+        params=dict(target_sampling=Tup(Real, Real), old_sampling=Tup(Real, Real), old_gpts=Tup(Int, Int)),
+        requires=["target_sampling[0] > 0 and target_sampling[1] > 0", "old_sampling[0] > 0 and old_sampling[1] > 0",
+                  "old_gpts[0] >= 1 and old_gpts[1] >= 1"],
+        ensures=[("extent-conserved", "forall(lambda i: result[0][i] * result[1][i] == old_sampling[i] * old_gpts[i], 0, 2)"),
+                 ("at-least-one-point", "result[1][0] >= 1 and result[1][1] >= 1"),
+                 ("not-coarser-than-target", "forall(lambda i: result[0][i] <= target_sampling[i], 0, 2)"),
+                 ("smallest-such-count", "forall(lambda i: (result[1][i] - 1) * target_sampling[i] < old_sampling[i] * old_gpts[i], 0, 2)")],
+        cross_check=True,
+    ),
+    "_diffraction_pattern_resampling_gpts/gpts": dict(
+        module=M, qualname="_diffraction_pattern_resampling_gpts",
+        params=dict(old_sampling=Tup(Real, Real), old_gpts=Tup(Int, Int), sampling=Const(None), gpts=Tup(Int, Int), adjust_sampling=Bool),
+        requires=["old_sampling[0] > 0 and old_sampling[1] > 0", "old_gpts[0] >= 1 and old_gpts[1] >= 1", "gpts[0] >= 1 and gpts[1] >= 1"],
+        ensures=[("gpts-as-given", "result[0][0] == gpts[0] and result[0][1] == gpts[1]"),
+                 ("extent-conserved", "forall(lambda i: result[1][i] * result[0][i] == old_sampling[i] * old_gpts[i], 0, 2)")],
+        cross_check=True,
+    ),
+    "_diffraction_pattern_resampling_gpts/sampling": dict(
+        module=M, qualname="_diffraction_pattern_resampling_gpts",
+        params=dict(old_sampling=Tup(Real, Real), old_gpts=Tup(Int, Int), sampling=Alt(Const("uniform"), Real, Tup(Real, Real)),
+                    gpts=Const(None), adjust_sampling=Const(True)),
+        requires=["old_sampling[0] > 0 and old_sampling[1] > 0", "old_gpts[0] >= 1 and old_gpts[1] >= 1",
+                  "isinstance(sampling, str) or (sampling > 0 if isinstance(sampling, float) else (sampling[0] > 0 and sampling[1] > 0))"],
+        ensures=[("extent-conserved", "forall(lambda i: result[1][i] * result[0][i] == old_sampling[i] * old_gpts[i], 0, 2)"),
+                 ("uniform-means-coarsest-old-sampling-as-target",
+                  "implies(isinstance(sampling, str), forall(lambda i: result[1][i] <= max(old_sampling[0], old_sampling[1]) and "
+                  "(result[0][i] - 1) * max(old_sampling[0], old_sampling[1]) < old_sampling[i] * old_gpts[i], 0, 2))")],
+        cross_check=False,
+    ),
 }
 
 
